@@ -43,6 +43,19 @@ def hexBytesUpper : List Nat → List Nat
   | [] => []
   | b :: r => hexDigitUpper (b / 16 % 16) :: hexDigitUpper (b % 16) :: hexBytesUpper r
 
+/-- `regular` in `escape_pdf_name_bytes` (writer/pdf_writer/mod.rs) -/
+def nameRegular (b : Nat) : Bool :=
+  (33 ≤ b && b ≤ 126) &&
+    !(b == 40 || b == 41 || b == 60 || b == 62 || b == 91 || b == 93 || b == 123 || b == 125 ||
+      b == 47 || b == 37 || b == 35)
+
+/-- `escape_pdf_name_bytes`: regular bytes verbatim, every other byte as `#XX` -/
+def escapeName : List Nat → List Nat
+  | [] => []
+  | b :: r =>
+    if nameRegular b then b :: escapeName r
+    else 35 :: hexDigitUpper (b / 16 % 16) :: hexDigitUpper (b % 16) :: escapeName r
+
 def ltBytes : List Nat → List Nat → Bool
   | [], [] => false
   | [], _ :: _ => true
@@ -144,8 +157,25 @@ def parseI32 (s : List Nat) : Option Int :=
     if p.1 then (if n ≤ 2147483648 then some (- (Int.ofNat n)) else none)
     else (if n ≤ 2147483647 then some (Int.ofNat n) else none)
 
-/-- `read_number` -/
+/-- `read_number`: a token without a period that does not fit `i32` is read as a real
+    (`parse::<f32>` succeeds exactly when there is a digit) -/
 def readNumber (inp : List Nat) : Step :=
+  let sr : List Nat × List Nat :=
+    match inp with
+    | b :: r => if b == 43 || b == 45 then ([b], r) else ([], inp)
+    | [] => ([], inp)
+  let m := takeMantissa false sr.2
+  let numStr := sr.1 ++ m.1
+  if m.2.1 then
+    (if countDigits m.1 > 0 then .tok (.number numStr) m.2.2 else .err)
+  else
+    match parseI32 numStr with
+    | some i => .tok (.integer i) m.2.2
+    | none => if countDigits m.1 > 0 then .tok (.number numStr) m.2.2 else .err
+
+/-- `read_number` BEFORE the repair (integer tokens beyond `i32` were an error): kept for the
+    regression statement `C21_old_witness_big_integer` -/
+def readNumberOld (inp : List Nat) : Step :=
   let sr : List Nat × List Nat :=
     match inp with
     | b :: r => if b == 43 || b == 45 then ([b], r) else ([], inp)
